@@ -507,10 +507,11 @@ def months_inc(start_date, months, eomonth=False):
     if start_date < 0:
         return NUM_ERROR
     y, m, d = date_from_int(start_date)
-    if eomonth:
-        return date(y, m + months + 1, 1) - 1
-    else:
-        return date(y, m + months, d)
+    y, m, _ = normalize_year(y, m + math.trunc(months), 1)
+    if not (1900 <= y <= 9999):
+        return NUM_ERROR
+    last_day = max_days_in_month(m, y)
+    return date(y, m, last_day if eomonth else min(d, last_day))
 
 
 @time_value_wrapper
